@@ -400,6 +400,11 @@ Section Main.
     eval_f (FFunc tname_value (ECons a ENil)) root ctx cur key = call_function rf rs tname_value [v].
   Proof. intros H. rewrite eval_func, eval_fs_cons, H, eval_fs_nil. reflexivity. Qed.
 
+  Lemma eval_typeof a root ctx cur key v :
+    eval_f a root ctx cur key = Ok v ->
+    eval_f (FFunc tname_typeof (ECons a ENil)) root ctx cur key = call_function rf rs tname_typeof [v].
+  Proof. intros H. rewrite eval_func, eval_fs_cons, H, eval_fs_nil. reflexivity. Qed.
+
   Lemma eval_match a b root ctx cur key va vb :
     eval_f a root ctx cur key = Ok va -> eval_f b root ctx cur key = Ok vb ->
     eval_f (FFunc tname_match (ECons a (ECons b ENil))) root ctx cur key =
@@ -443,16 +448,30 @@ Section Main.
           with (Some (JNum (num_of_Z (Z.of_nat (length (q_nodes a root ctx cur key)))))).
         rewrite <- Hq, map_length. constructor.
       + (* value *)
-        cbn [orb] in Hw. destruct (ustr_eqb name tname_value) eqn:HV; [|discriminate Hw].
-        apply ustr_eqb_spec in HV. subst name.
+        cbn [orb] in Hw. destruct (ustr_eqb name tname_value) eqn:HV.
+        { apply ustr_eqb_spec in HV. subst name.
+          destruct args as [|a [|b r]]; try discriminate Hw.
+          destruct Hargs as [Ha _]. rewrite dk_exprs_cons in Hdk. apply andb_true_iff in Hdk as [Hdka _].
+          destruct (Ha Hdka root ctx cur key) as (Hn & _). destruct (Hn Hw) as (ms & Hev & Hq).
+          rewrite (eval_valuef a root ctx cur key _ Hev).
+          change (v_value (FFunc tname_value (ECons a ENil)) root ctx cur key)
+            with (fn_value (q_nodes a root ctx cur key)).
+          rewrite <- Hq.
+          destruct ms as [|n [|n' ms]]; (eexists; split; [reflexivity|]); constructor. }
+        (* typeof *)
+        destruct (ext && ustr_eqb name tname_typeof) eqn:HT; [|discriminate Hw].
+        apply andb_true_iff in HT as [_ HT]. apply ustr_eqb_spec in HT. subst name.
         destruct args as [|a [|b r]]; try discriminate Hw.
         destruct Hargs as [Ha _]. rewrite dk_exprs_cons in Hdk. apply andb_true_iff in Hdk as [Hdka _].
         destruct (Ha Hdka root ctx cur key) as (Hn & _). destruct (Hn Hw) as (ms & Hev & Hq).
-        rewrite (eval_valuef a root ctx cur key _ Hev).
-        change (v_value (FFunc tname_value (ECons a ENil)) root ctx cur key)
-          with (fn_value (q_nodes a root ctx cur key)).
+        rewrite (eval_typeof a root ctx cur key _ Hev).
+        change (v_value (FFunc tname_typeof (ECons a ENil)) root ctx cur key)
+          with (fn_typeof (q_nodes a root ctx cur key)).
         rewrite <- Hq.
-        destruct ms as [|n [|n' ms]]; (eexists; split; [reflexivity|]); constructor.
+        destruct ms as [|n [|n' ms]]; [| |]; (eexists; split; [reflexivity|]).
+        * constructor.
+        * cbn [map fn_typeof]. destruct n as [v ps pth]. cbn. destruct v; constructor.
+        * constructor.
   Qed.
 
   Lemma func_logical_case name args root ctx cur key :
